@@ -98,6 +98,7 @@ func (d *dateObject) Set(epoch float64) {
 		d.epoch = -1
 		d.value = NaNValue()
 	} else {
+		d.isNaN = false
 		d.value = int64Value(d.epoch)
 	}
 }
